@@ -21,9 +21,9 @@ from .. import spaces as SP
 GARBAGE = ('nan', 'huge', 'stale', 'inf', 'denormal', 'zero')
 
 TIERS = {
-    'C03': {'quick': {'runs': 48000, 'budget_s': 100, 'chunk': 100},
+    'C03': {'quick': {'runs': 96000, 'budget_s': 100, 'chunk': 100},
             'thorough': {'runs': 3000000, 'budget_s': 1800, 'chunk': 500}},
-    'C10': {'quick': {'runs': 48000, 'budget_s': 100, 'chunk': 100},
+    'C10': {'quick': {'runs': 96000, 'budget_s': 100, 'chunk': 100},
             'thorough': {'runs': 3000000, 'budget_s': 1800, 'chunk': 500}},
 }
 
